@@ -285,8 +285,15 @@ func init() {
 			if sameSid {
 				st.distinctSids = nP - 1
 			}
-			for _, n := range cn {
-				w.addClient(n, "", time.Second, viaIPC)
+			// the first client may name a well-formed fingerprint that is not in the bridge list: it is refused,
+			// and that must cost the other clients nothing
+			absentFirst := x.Cfg["fp"] == "2" && vs.Choose("absentfp", 2) == 1
+			for i, n := range cn {
+				fp := ""
+				if i == 0 && absentFirst {
+					fp = fpAbsent
+				}
+				w.addClient(n, fp, time.Second, viaIPC)
 			}
 			var sb strings.Builder
 			for _, p := range w.proxies {
@@ -371,6 +378,9 @@ func init() {
 					continue
 				}
 				if holder[c.offer] == nil {
+					if c.fp == fpAbsent {
+						continue // refused because of its bridge, whatever waits
+					}
 					if !c03Canonical(c.nat) {
 						continue // may be refused as invalid, or served like unknown: nothing more is promised
 					}
